@@ -1504,6 +1504,14 @@ class Engine:
                 optd = z3.simplify(od)
                 return EnumV('Result', d.as_long() if z3.is_int_value(d) else d,
                              {0: {0: EnumV('Option', optd.as_long() if z3.is_int_value(optd) else optd, {1: {0: okv}} if okv is not None else {})}, 1: {0: errv}})
+        if re.match(r'^Option::<(.*)>::as_ref$', c) and isinstance(args[0], RefV):
+            # Option<T> behind a reference -> Option<&T>: same discriminant, the payload is a reference into the original Some payload
+            o = self.deref_val(args[0])
+            if isinstance(o, EnumV) and (isinstance(o.disc, int) or z3.is_expr(o.disc)) and 0 in o.payload.get(1, {0: None}):
+                if 1 in o.payload and 0 in o.payload[1]:
+                    return EnumV('Option', o.disc, {1: {0: RefV(args[0].cell, args[0].path + (('v', 'Some'), ('f', 0, '?')))}})
+                if isinstance(o.disc, int) and o.disc == 0:
+                    return EnumV('Option', 0, {})
         if re.match(r'^Option::<(.*)>::unwrap_or$', c):
             o = args[0]
             if isinstance(o.disc, int):
@@ -1997,6 +2005,8 @@ class Engine:
         fr = st.frames[-1]; fn = fr['fn']
         args = [self.operand(st, a) for a in split_top(argstr, ',') if a.strip()]
         v = None
+        _dm = re.match(r'^(_\d+)$', dest)
+        self.cur_ret_ty = fn.ret if dest == '_0' else (fn.locals.get(_dm.group(1)) if _dm else None)     # for summaries that build a typed result
         for rx, sf in getattr(self, 'summaries', []):
             if rx.search(callee):
                 v = sf(self, st, callee, args); break
